@@ -578,3 +578,6 @@ def check(col: Collector):
     with col.rule():
         shared(col, "C04.R8", [c20._cinit_rules], select=lambda o: "no-enforced-parameter-types" in o.construct,
                why="evaluation must hand Python's own objects to Python's own operators")
+    with col.rule():
+        shared(col, "C04.R8", [c20._no_semantic_directives],
+               why="C division neither raises ZeroDivisionError nor rounds like Python's: the documented NaN convention and Python's results are lost")
